@@ -39,6 +39,9 @@ Proof.
         -- inversion H; subst. split; [reflexivity|]. eexists. split; reflexivity.
 Qed.
 
+Lemma render_some : forall c v r, render c v = Some r -> to_render_values c v = Some r.
+Proof. intros c v r H. unfold render in H. destruct (pd_ok c v); [assumption | discriminate]. Qed.
+
 (* C13_config_spec *)
 Theorem upgrade_config_spec : forall h f c vals r,
   step h (OUpgrade f c vals) = Some r ->
@@ -47,7 +50,7 @@ Proof.
   intros h f c vals r H. simpl in H.
   destruct (current h) as [cur|]; [|discriminate].
   destruct (reuse_values_fn f c cur vals) as [[c' vals']|] eqn:E; [|discriminate].
-  destruct (to_render_values c' vals'); [|discriminate].
+  destruct (render c' vals'); [|discriminate].
   inversion H; subst. simpl.
   apply reuse_values_fn_spec in E. destruct E as [-> _].
   eauto.
@@ -64,7 +67,7 @@ Proof.
   intros h f c vals r H. simpl in H.
   destruct (current h) as [cur|]; [|discriminate].
   destruct (reuse_values_fn f c cur vals) as [[c' vals']|] eqn:E; [|discriminate].
-  destruct (to_render_values c' vals') eqn:T; [|discriminate].
+  destruct (render c' vals') eqn:T; [|discriminate]. apply render_some in T.
   inversion H; subst. simpl.
   apply reuse_values_fn_spec in E. destruct E as [_ (d & Hd & ->)].
   exists cur, d. auto.
@@ -80,11 +83,11 @@ Lemma step_consistent : forall h o r,
   Forall consistent h -> step h o = Some r -> consistent r.
 Proof.
   intros h o r Hh H. destruct o as [c vals|f c vals|v]; simpl in H.
-  - destruct h; [|discriminate]. destruct (to_render_values c vals) eqn:T; [|discriminate].
+  - destruct h; [|discriminate]. destruct (render c vals) eqn:T; [|discriminate]. apply render_some in T.
     inversion H; subst. exact T.
   - destruct (current h) as [cur|]; [|discriminate].
     destruct (reuse_values_fn f c cur vals) as [[c' vals']|]; [|discriminate].
-    destruct (to_render_values c' vals') eqn:T; [|discriminate].
+    destruct (render c' vals') eqn:T; [|discriminate]. apply render_some in T.
     inversion H; subst. exact T.
   - destruct (current h); [|discriminate].
     destruct (get_rev h _) as [t|] eqn:G; [|discriminate].
@@ -159,7 +162,7 @@ Lemma step_spec_step : forall h o r,
   step h o = Some r -> spec_step (map rconfig h) o = Some (rconfig r).
 Proof.
   intros h o r H. destruct o as [c vals|f c vals|v].
-  - simpl in *. destruct h; [|discriminate]. destruct (to_render_values c vals); [|discriminate].
+  - simpl in *. destruct h; [|discriminate]. destruct (render c vals); [|discriminate].
     inversion H; subst. reflexivity.
   - destruct (upgrade_config_spec _ _ _ _ _ H) as (cur & Hc & Hr).
     simpl. rewrite map_length, nth_config_map. unfold current in Hc. rewrite Hc. simpl. now rewrite Hr.
@@ -202,12 +205,18 @@ Theorem overlay_paths : forall f newv deployed,
   (forall p x, lookup_path p (VMap newv) = Some x -> is_table x = false -> x <> VNull ->
                lookup_path p (VMap (config_spec f newv deployed)) = Some x)
   /\ (forall p, defines p (VMap newv) = false ->
-                lookup_path p (VMap (config_spec f newv deployed)) = lookup_path p (VMap deployed)).
+                lookup_path p (VMap (config_spec f newv deployed)) = lookup_path p (VMap deployed))
+  /\ (forall p y, lookup_path p (VMap newv) = Some VNull -> lookup_path p (VMap deployed) = Some y ->
+                  lookup_path p (VMap (config_spec f newv deployed)) = None)
+  /\ (forall p, lookup_path p (VMap newv) = Some VNull -> lookup_path p (VMap deployed) = None ->
+                lookup_path p (VMap (config_spec f newv deployed)) = Some VNull).
 Proof.
   intros f newv deployed R U Hwf. unfold config_spec. rewrite R, U.
-  rewrite coalesce_tables_loop. split; intros.
+  rewrite coalesce_tables_loop. repeat split; intros.
   - now apply ct_dst_wins.
   - now apply ct_src_fills.
+  - eapply ct_null_removes; eauto.
+  - now apply ct_null_stays.
 Qed.
 
 (* non-vacuity: a concrete chain *)
